@@ -126,7 +126,7 @@ pub fn scenario() -> BoxedStrategy<Scenario> {
         .boxed()
 }
 
-fn oracle(sc: &Scenario, obs: &mut Obs) -> Check {
+pub fn oracle(sc: &Scenario, obs: &mut Obs) -> Check {
     let (stats, _) = progs::differential(sc, obs, "partial")?;
     if stats.partial_calls > 0 && (!stats.shadow_pairs.is_empty() || stats.interrupts > 0) {
         obs.nt(&(sc.main_src(), sc.sources(), sc.data.dump()));
@@ -255,4 +255,14 @@ pub fn run(ctx: &Ctx) {
     ctx.assume("cycle/ifchanged inside partials, interrupts at the top level of a render-for partial and object printing are not compared");
     ctx.cases("call_forms", enumerated(), oracle);
     ctx.random("scenarios", ctx.pick(60_000, 1_000_000), scenario, oracle);
+}
+
+/// Byte-driven twin of `scenario` (engine E6b, see astdec.rs).
+pub fn fuzz_case(d: &mut crate::astdec::Dec) -> Scenario {
+    let status: Vec<(u8, bool)> = (0..3).map(|_| (d.below(9) as u8, d.flag())).collect();
+    let bound = d.below(27) as u8;
+    let dynamic: Vec<bool> = (0..12).map(|_| d.pct(30)).collect();
+    let main = d.nodes(&level_cfg(0), 6);
+    let bodies = vec![d.nodes(&level_cfg(1), 4), d.nodes(&level_cfg(2), 4), d.nodes(&level_cfg(3), 4)];
+    build(main, bodies, status, bound, dynamic)
 }
